@@ -134,21 +134,92 @@ fn main_search(args: &[String]) -> i32 {
 /// Counting allocator: lets a search see whether a library call allocated (property C14).
 pub struct Counting;
 pub static ALLOC_CALLS: std::sync::atomic::AtomicU64 = std::sync::atomic::AtomicU64::new(0);
+thread_local! {
+    /// bytes requested from the allocator by this thread (sum of the layout sizes of `alloc` / `alloc_zeroed` / growth by `realloc`)
+    static ALLOC_BYTES: std::cell::Cell<u64> = const { std::cell::Cell::new(0) };
+}
+/// live allocator blocks of alignment >= 64 (the aligned buffers' storage): (address, size) pairs in a fixed table, so that a
+/// probe can ask which block a pointer lies in without trusting the library's own bookkeeping
+const BLOCK_SLOTS: usize = 4096;
+static BLOCK_ADDR: [std::sync::atomic::AtomicUsize; BLOCK_SLOTS] = [const { std::sync::atomic::AtomicUsize::new(0) }; BLOCK_SLOTS];
+static BLOCK_SIZE: [std::sync::atomic::AtomicUsize; BLOCK_SLOTS] = [const { std::sync::atomic::AtomicUsize::new(0) }; BLOCK_SLOTS];
+fn block_insert(p: *mut u8, l: std::alloc::Layout) {
+    if p.is_null() || l.align() < 64 {
+        return;
+    }
+    use std::sync::atomic::Ordering::SeqCst;
+    let start = (p as usize >> 6) % BLOCK_SLOTS;
+    for k in 0..BLOCK_SLOTS {
+        let i = (start + k) % BLOCK_SLOTS;
+        if BLOCK_ADDR[i].compare_exchange(0, p as usize, SeqCst, SeqCst).is_ok() {
+            BLOCK_SIZE[i].store(l.size(), SeqCst);
+            return;
+        }
+    }
+}
+fn block_remove(p: *mut u8, l: std::alloc::Layout) {
+    if p.is_null() || l.align() < 64 {
+        return;
+    }
+    use std::sync::atomic::Ordering::SeqCst;
+    let start = (p as usize >> 6) % BLOCK_SLOTS;
+    for k in 0..BLOCK_SLOTS {
+        let i = (start + k) % BLOCK_SLOTS;
+        if BLOCK_ADDR[i].load(SeqCst) == p as usize {
+            BLOCK_SIZE[i].store(0, SeqCst);
+            BLOCK_ADDR[i].store(0, SeqCst);
+            return;
+        }
+    }
+}
+/// the live allocator block (alignment >= 64) that contains address `p`: `(base, size)`
+pub fn block_containing(p: usize) -> Option<(usize, usize)> {
+    use std::sync::atomic::Ordering::SeqCst;
+    for i in 0..BLOCK_SLOTS {
+        let b = BLOCK_ADDR[i].load(SeqCst);
+        let s = BLOCK_SIZE[i].load(SeqCst);
+        if b != 0 && b <= p && p < b + s.max(1) {
+            return Some((b, s));
+        }
+    }
+    None
+}
+fn note_bytes(n: usize) {
+    let _ = ALLOC_BYTES.try_with(|c| c.set(c.get().wrapping_add(n as u64)));
+}
+/// bytes this thread has requested from the allocator so far
+pub fn alloc_bytes() -> u64 {
+    ALLOC_BYTES.try_with(|c| c.get()).unwrap_or(0)
+}
 unsafe impl std::alloc::GlobalAlloc for Counting {
     unsafe fn alloc(&self, l: std::alloc::Layout) -> *mut u8 {
         ALLOC_CALLS.fetch_add(1, std::sync::atomic::Ordering::Relaxed);
-        std::alloc::System.alloc(l)
+        note_bytes(l.size());
+        let p = std::alloc::System.alloc(l);
+        block_insert(p, l);
+        p
     }
     unsafe fn dealloc(&self, p: *mut u8, l: std::alloc::Layout) {
+        block_remove(p, l);
         std::alloc::System.dealloc(p, l)
     }
     unsafe fn alloc_zeroed(&self, l: std::alloc::Layout) -> *mut u8 {
         ALLOC_CALLS.fetch_add(1, std::sync::atomic::Ordering::Relaxed);
-        std::alloc::System.alloc_zeroed(l)
+        note_bytes(l.size());
+        let p = std::alloc::System.alloc_zeroed(l);
+        block_insert(p, l);
+        p
     }
     unsafe fn realloc(&self, p: *mut u8, l: std::alloc::Layout, n: usize) -> *mut u8 {
         ALLOC_CALLS.fetch_add(1, std::sync::atomic::Ordering::Relaxed);
-        std::alloc::System.realloc(p, l, n)
+        block_remove(p, l);
+        let q = std::alloc::System.realloc(p, l, n);
+        if q.is_null() {
+            block_insert(p, l);
+        } else {
+            block_insert(q, std::alloc::Layout::from_size_align_unchecked(n, l.align()));
+        }
+        q
     }
 }
 #[global_allocator]
